@@ -2132,6 +2132,36 @@ class SetOf(SequenceOfAndSetOfBase):
     # Disambiguation ASN.1 types identification
     typeId = SequenceOfAndSetOfBase.getTypeId()
 
+    def __eq__(self, other):
+        if self is other:
+            return True
+
+        # two SET OF values are equal when they hold the same elements
+        # the same number of times: the order they were added in is not
+        # part of the value
+        if (isinstance(other, SetOf) and self._componentValues is not noValue
+                and other._componentValues is not noValue):
+            unmatched = list(other.components)
+
+            for component in self.components:
+                for idx, otherComponent in enumerate(unmatched):
+                    if component == otherComponent:
+                        del unmatched[idx]
+                        break
+
+                else:
+                    return False
+
+            return not unmatched
+
+        return self.components == other
+
+    def __ne__(self, other):
+        if isinstance(other, SetOf):
+            return not self == other
+
+        return self.components != other
+
 
 class SequenceAndSetBase(base.ConstructedAsn1Type):
     """Create |ASN.1| schema or value object.
